@@ -132,7 +132,10 @@ main(void)
 			hcpu_crc_reset();
 			hcpu_aes_reset();
 			hcpu_ctr_reset();
-			printf("case %s", hc_tok[1]);
+			/* flush, so that a crash (assert, sanitizer) is attributed to the case it happens in */
+			printf("case %s\n", hc_tok[1]);
+			fflush(stdout);
+			continue;
 		} else if (hc_is("path", 0)) {
 			init_all();
 			printf("path | ");
